@@ -1,7 +1,10 @@
 """C01 — Die decomposition is an exact tiling of the die.
 
-Correspondence: the public entry `Die(text, netlist)` of the repository vs the Lean model `FV/Model/Die.lean`
-(`dieModel`), on generated YAML documents.  The order of `die.ground_regions` is the pick trace of the greedy cover;
+Correspondence: the public entry `Die(stream, netlist)` of the repository vs the Lean model, on generated documents.
+The model input is the pair of DOCUMENTS (die source: `str` incl. the `<w>x<h>` shorthand / tree / other object; netlist tree):
+`FV/Model/DieNet.lean` (`construct`) runs the C05 reader model on the netlist document, computes the fixed rectangles and the
+tolerance the netlist leaves behind, splits the shorthand itself, and then runs `FV/Model/Die.lean`; a quarter of the cases also
+go through the older entry (`dieModel`: die tree + fixed rectangles read from the implementation).  The order of `die.ground_regions` is the pick trace of the greedy cover;
 it is mapped to index rectangles on the model's own Hanan grid (op `grid`) and fed to the model's relational cover
 (op `accept`); for documents the implementation rejects, the model runs its deterministic cover (op `model`).
   * Q stream: dyadic coordinates (exact in binary floating point) — model at `Rat`, full region lists compared exactly;
@@ -12,20 +15,23 @@ is valid but rejected, or clearly invalid but accepted, is a violation.
 """
 from __future__ import annotations
 
+import io
 import itertools
+import os
 import math
 import re
 import signal
 from decimal import Decimal
 from fractions import Fraction as Fr
 
-from vcheck import Ctx, f2hex, hex2f, q2s
+from vcheck import Ctx, f2hex, hex2f, q2s, load_known
 import geo
 from geo import sc, rect_in, bb
 from frame.die.die import Die
 from frame.geometry.geometry import Rectangle, gather_boundaries
 from frame.netlist.netlist import Netlist
 from frame.utils.utils import read_yaml
+from netlist_common import enc_tree, enc_str
 
 LEVEL = "proof"
 DRIVERS = ["drv_die"]
@@ -33,7 +39,10 @@ TRUSTED = [
     "Lean 4.33 kernel; Mathlib lemmas; axioms ⊆ {propext, Classical.choice, Quot.sound}",
     "hand-written model FV/Model/Die.lean — fidelity to frame/die/die.py, yaml_parse_die.py, gather_boundaries checked by "
     "this correspondence run (including CPython's compensated float sum()), not proved",
-    "YAML text → tree (ruamel.yaml, `<w>x<h>` shorthand) and Netlist → fixed rectangles are taken from the implementation",
+    "YAML text → tree (ruamel.yaml / read_yaml) and Python's float(str) on the pieces of the `<w>x<h>` shorthand are taken from the "
+    "implementation (parameters `ry`, `pf` of the model); the split of the shorthand, the source kinds, the netlist reader "
+    "(C05 model), its fixed rectangles and the tolerance it installs are computed by the model from the documents",
+    "the STOG role carried by a fixed rectangle is not part of the die model (the die never reads it)",
     "theorems are over exact ordered fields; IEEE rounding is executed (F stream) and searched (validity oracle), never proved",
     "math.sqrt is a parameter of the model (Float.sqrt in the F stream, the implementation's answer in the Q stream)",
     "harness (Python) and compiled Lean driver: serialisation, mapping of ground rectangles to grid indices, comparison",
@@ -175,6 +184,127 @@ class time_limit:
         return False
 
 
+def make_stream(case: dict):
+    """the object handed to `Die(...)`: the text itself (`str`), its tree (`list`/`dict`), or an object of another kind."""
+    kind = case.get("as", "str")
+    if kind == "str":
+        return case["doc"]
+    if kind == "tree":
+        t = read_yaml(case["doc"])
+        if not isinstance(t, (list, dict)):
+            raise Unserialisable()
+        return t
+    if kind == "handle":
+        return io.StringIO(case["doc"])
+    if kind == "none":
+        return None
+    if kind == "number":
+        return 7.5
+    raise Unserialisable()
+
+
+def src_tokens(stream, mode: str) -> str:
+    """the model's `Src`: for a `str` the text, the answers of `float()` on the pieces `rsplit('x')` can produce (the model
+    splits on its own and looks the pieces up), and what `read_yaml` makes of the text (`-` if it raises)."""
+    if isinstance(stream, (list, dict)):
+        return "T " + ser_tree(stream, mode)
+    if isinstance(stream, io.TextIOBase):
+        # an open text stream: read_yaml reads and parses it (no shorthand); `-` if the text layer raises
+        pos = stream.tell()
+        try:
+            t = read_yaml(io.StringIO(stream.read()))
+            tok = "H Y " + ser_tree(t, mode)
+        except Unserialisable:
+            raise
+        except Exception:
+            tok = "H -"
+        finally:
+            stream.seek(pos)
+        return tok
+    if not isinstance(stream, str):
+        return "O"
+    if not all(ch == "\n" or " " <= ch <= "~" for ch in stream):
+        raise Unserialisable()
+    tab = []
+    for piece in dict.fromkeys(stream.split("x")):
+        try:
+            v = float(piece)
+        except ValueError:
+            tab.append(enc_str(piece) + " -")
+            continue
+        if not math.isfinite(v):
+            raise Unserialisable()
+        tab.append(enc_str(piece) + " n " + sc(v, mode))
+    try:
+        t = read_yaml(stream)
+        ytok = "Y " + ser_tree(t, mode)
+    except Unserialisable:
+        raise
+    except Exception:
+        ytok = "-"
+    return f"S {enc_str(stream)} {len(tab)} " + " ".join(tab) + (" " if tab else "") + ytok
+
+
+# ------------------------------------------------------------------ object histories on the attached netlist
+def _norm_rects(info: dict) -> list | None:
+    """the `rectangles` entry of a module as a list of lists (a single rectangle may be written on its own)."""
+    rl = info.get("rectangles")
+    if rl is None:
+        return None
+    if rl and isinstance(rl[0], (int, float)):
+        rl = [rl]
+    info["rectangles"] = [list(r) for r in rl]
+    return info["rectangles"]
+
+
+def apply_history_tree(tree: dict, history: list) -> dict:
+    """the netlist DOCUMENT that describes the netlist object after the history (what the model is given)."""
+    import copy
+    t = copy.deepcopy(tree)
+    mods = t.get("Modules", {})
+    for h in history:
+        if h[0] == "move":
+            k = h[1]
+            for info in mods.values():
+                rl = _norm_rects(info) if isinstance(info, dict) else None
+                if not rl:
+                    continue
+                if k < len(rl):
+                    rl[k][0] = rl[k][0] + h[2]
+                    rl[k][1] = rl[k][1] + h[3]
+                    break
+                k -= len(rl)
+        elif h[0] == "assign":
+            mods[h[1]]["rectangles"] = [list(r) for r in h[2]]
+    return t
+
+
+def apply_history_obj(netlist, stream, history: list) -> None:
+    """the same history on the live object: an earlier die built for it, rectangles moved in place (the idiom of
+    `Module.recenter_rectangles` / the floorplanning tools), rectangles redefined through `assign_rectangles`."""
+    for h in history:
+        if h[0] == "predie":
+            try:
+                Die(stream, netlist)
+            except Exception:
+                pass
+        elif h[0] == "move":
+            r = netlist.rectangles[h[1]]
+            r.center.x += h[2]
+            r.center.y += h[3]
+        elif h[0] == "assign":
+            netlist.assign_rectangles({h[1]: [list(r) for r in h[2]]})
+
+
+def fixed_of_tree(tree: dict) -> list:
+    out = []
+    for info in tree.get("Modules", {}).values():
+        if isinstance(info, dict) and info.get("fixed") is True:
+            for r in (_norm_rects(dict(info)) or []):
+                out.append([str(Fr(v)) for v in r[:4]])
+    return out
+
+
 class Run:
     """one execution of the implementation."""
 
@@ -184,48 +314,92 @@ class Run:
         self.case = case
         mode = case["mode"]
         set_state(case.get("pre"))
+        self.st_pre = get_state()
         self.netlist = None
         self.fixed = []
         self.die = None
         self.err = None
+        self.impl = None
+        self.tree = None
+        self.head = None
+        netl = "-"
         try:
+            stream = make_stream(case)
             if case.get("netlist"):
                 try:
+                    ntree = read_yaml(case["netlist"])
+                    netl = "N " + enc_tree(ntree, mode)
+                except Exception:
+                    raise Unserialisable()       # not YAML: text layer, outside the model
+                try:
                     self.netlist = Netlist(case["netlist"])
+                    if case.get("history"):
+                        # the netlist object is changed after loading; the model gets the document describing the result.
+                        # (`fixed_rectangles()` is NOT called here: its lazy rebuild has to happen inside `Die(...)`.)
+                        apply_history_obj(self.netlist, make_stream(case), case["history"])
+                        ntree = apply_history_tree(ntree, case["history"])
+                        netl = "N " + enc_tree(ntree, mode)
+                        self.fixed_expect = fixed_of_tree(ntree)
+                        if case.get("exact") is not None:
+                            self.exact = dict(case["exact"], fixed=self.fixed_expect)
+                    else:
+                        self.fixed = list(self.netlist.fixed_rectangles())
+                except AssertionError:
+                    self.impl = "err:Netlist"    # the caller's Netlist(...) raised: the die is never constructed
+                except Exception:
+                    raise Unserialisable()       # any other exception of the netlist reader is C05's subject
+            self.st0 = get_state()
+            if self.st0 is not None and not (math.isfinite(self.st0[0]) and math.isfinite(self.st0[1])):
+                raise Unserialisable()           # a netlist of terminals only proposes the tolerance inf: outside the model
+            self.src = src_tokens(stream, mode)
+            if isinstance(stream, str):
+                try:
+                    self.tree = doc_tree(stream)
+                except Unserialisable:
+                    raise
+                except Exception:
+                    self.tree = None             # the text layer raises (no such file / not YAML)
+            elif isinstance(stream, (list, dict)):
+                self.tree = stream
+            elif isinstance(stream, io.TextIOBase):
+                try:
+                    self.tree = read_yaml(io.StringIO(case["doc"]))
+                except Exception:
+                    self.tree = None
+            if self.impl is None:
+                try:
+                    with time_limit(20):
+                        self.die = Die(make_stream(case), self.netlist)
+                    self.impl = "ok"
+                except AssertionError:
+                    self.impl = "err:Assert"
+                except Exception as e:  # not modelled: reported as `operation-raised` (unless it is the text layer's)
+                    self.impl = "err:" + type(e).__name__
+                    self.raised = repr(e)[:300]
+                    if isinstance(e, TimeoutError):
+                        _TIMEOUTS.append(1)
+            self.st1 = get_state()
+            if case.get("history") and self.netlist is not None:
+                try:
                     self.fixed = list(self.netlist.fixed_rectangles())
                 except Exception:
-                    raise Unserialisable()       # the netlist itself is rejected: not a die question (C05)
-            self.st0 = get_state()
-            try:
-                self.tree = doc_tree(case["doc"])
-            except Unserialisable:
-                raise
-            except Exception:
-                raise Unserialisable()           # not YAML: text layer, outside the model
-            try:
-                with time_limit(20):
-                    self.die = Die(case["doc"], self.netlist)
-                self.impl = "ok"
-            except AssertionError:
-                self.impl = "err:Assert"
-            except Exception as e:  # not modelled: reported as `operation-raised`
-                self.impl = "err:" + type(e).__name__
-                self.raised = repr(e)[:300]
-                if isinstance(e, TimeoutError):
-                    _TIMEOUTS.append(1)
-            self.st1 = get_state()
+                    self.fixed = None
         finally:
             Rectangle.undefine_epsilon()
-        # the square root the constructor would ask libm for (Q stream: the model cannot compute it)
-        sq = 0.0
-        try:
-            w, h = self.tree["width"], self.tree["height"]
-            if isinstance(w, (int, float)) and isinstance(h, (int, float)) and w > 0 and h > 0:
-                sq = math.sqrt(min(w, h) * 10e-12)
-        except Exception:
-            pass
-        self.head = f"{state_tok(self.st0, mode)} {sc(sq, mode)} {ser_tree(self.tree, mode)} " \
-                    f"{len(self.fixed)}" + "".join(" " + rect_in(r, mode) for r in self.fixed)
+        # request head of the document ops: tolerance state BEFORE the netlist, die source, netlist document
+        self.head2 = f"{state_tok(self.st_pre, mode)} {self.src} {netl}"
+        # request head of the older ops (die tree + fixed rectangles of the implementation), when there is a tree
+        if self.tree is not None and self.impl != "err:Netlist" and self.fixed is not None:
+            # the square root the constructor would ask libm for (Q stream: the model cannot compute it)
+            sq = 0.0
+            try:
+                w, h = self.tree["width"], self.tree["height"]
+                if isinstance(w, (int, float)) and isinstance(h, (int, float)) and w > 0 and h > 0:
+                    sq = math.sqrt(min(w, h) * 10e-12)
+            except Exception:
+                pass
+            self.head = f"{state_tok(self.st0, mode)} {sc(sq, mode)} {ser_tree(self.tree, mode)} " \
+                        f"{len(self.fixed)}" + "".join(" " + rect_in(r, mode) for r in self.fixed)
 
     def impl_line(self) -> str:
         if self.die is None:
@@ -235,36 +409,62 @@ class Run:
                f"{rects_str(d.ground_regions, mode)} ; {rects_str(d.blockages, mode)} ; {rects_str(d.fixed_regions, mode)}"
 
 
-def span_of(vals: list, centre, width) -> tuple[int, int]:
+def spans_of(vals: list, centre, width) -> list[tuple[int, int]]:
     """indices (i, j), i < j, of the grid lines whose span has this centre and width — the implementation's own
     formulas `(x[i] + x[j]) / 2`, `x[j] - x[i]` are used, so an unchanged implementation matches exactly even when
-    neighbouring lines are one ulp apart; otherwise the closest span."""
-    best, bij = None, (0, 1)
+    neighbouring lines are one ulp apart (then SEVERAL spans can match exactly: all are returned); otherwise the closest span."""
+    best, bij, exact = None, (0, 1), []
     for i in range(len(vals)):
         for j in range(i + 1, len(vals)):
             dlt = abs((vals[i] + vals[j]) / 2 - centre) + abs((vals[j] - vals[i]) - width)
+            if dlt == 0:
+                exact.append((i, j))
             if best is None or dlt < best:
                 best, bij = dlt, (i, j)
-                if dlt == 0:
-                    return bij
-    return bij
+    return exact or [bij]
 
 
-def picks_from(run: Run, grid_reply: str) -> str | None:
-    """ground rectangles → index rectangles on the model's grid."""
+def span_of(vals: list, centre, width) -> tuple[int, int]:
+    return spans_of(vals, centre, width)[0]
+
+
+def picks_from(run: Run, grid_reply: str, grounds=None) -> str | None:
+    """ground rectangles → index rectangles on the model's grid.  When grid lines one ulp apart make several index spans
+    reproduce a reported rectangle bit for bit, the span whose cells are free (in the model's matrix, after the earlier picks) is
+    taken: the translation is a device of the harness, and a rectangle that covers an occupied cell still has no admissible
+    translation."""
     if not grid_reply.startswith("ok "):
         return None
     mode = run.case["mode"]
     secs = grid_reply[3:].split(" ; ")
     xs = [geo.unsc(t, mode) for t in secs[0].split()[1:]]
     ys = [geo.unsc(t, mode) for t in secs[1].split()[1:]]
+    if grounds is None:
+        grounds = run.die.ground_regions
     if len(xs) < 2 or len(ys) < 2:
-        return None if run.die.ground_regions else "0"
+        return None if grounds else "0"
+    rows = [list(t.rstrip(".")) for t in secs[2].split()[1:]] if len(secs) > 2 else []
     conv = float if mode == "F" else Fr
+
+    def free(r0, r1, c0, c1):
+        try:
+            return all(rows[r][c] == "0" for r in range(r0, r1) for c in range(c0, c1))
+        except IndexError:
+            return False
     out = []
-    for g in run.die.ground_regions:
-        c0, c1 = span_of(xs, conv(g.center.x), conv(g.shape.w))
-        r0, r1 = span_of(ys, conv(g.center.y), conv(g.shape.h))
+    for g in grounds:
+        cs = spans_of(xs, conv(g.center.x), conv(g.shape.w))
+        rs = spans_of(ys, conv(g.center.y), conv(g.shape.h))
+        (c0, c1), (r0, r1) = cs[0], rs[0]
+        if len(cs) * len(rs) > 1:
+            for (a0, a1) in cs:
+                hit = next(((b0, b1) for (b0, b1) in rs if free(b0, b1, a0, a1)), None)
+                if hit is not None:
+                    (c0, c1), (r0, r1) = (a0, a1), hit
+                    break
+        for r in range(r0, min(r1, len(rows))):
+            for c in range(c0, min(c1, len(rows[r]))):
+                rows[r][c] = "1"
         out.append(f"{r0} {r1 - 1} {c0} {c1 - 1}")
     return f"{len(out)}" + "".join(" " + p for p in out)
 
@@ -299,6 +499,13 @@ def compare(ctx: Ctx, run: Run, model: str, verdict) -> None:
     if not (m_ok and i_ok):
         if model == impl:
             return
+        if model == "err:Text" and impl.startswith("err:") and impl not in ("err:Assert", "err:Netlist"):
+            return      # the text layer (`read_yaml`: no such file / not YAML) raised on both sides
+        if case.get("history") and {model, impl} == {"err:Netlist", "err:Assert"}:
+            return      # the netlist's own consistency assertion fires inside `Die(...)` (lazy rebuild) or in its self-check
+        if model == "err:InfTol":
+            ctx.count("netlist-proposes-infinite-tolerance")
+            return
         kinds = {"ok" if m_ok else model, "ok" if i_ok else impl}
         if mode == "F" and verdict == "unclear" and kinds == {"ok", "err:Assert"}:
             # accept/reject differs on a document that sits on a tolerance threshold: rounding tie, outside the property
@@ -307,6 +514,16 @@ def compare(ctx: Ctx, run: Run, model: str, verdict) -> None:
         ctx.disagree("die", case, impl[:400], model[:400], size)
         return
     msecs = model.split(" ; ")
+    if any(h[0] == "assign" for h in case.get("history") or []):
+        # after `assign_rectangles` the netlist rebuilds its flat list from the modules' own lists, which `create_stog` has
+        # reordered (trunk first): the order of the fixed regions within a module is then not the document's — compared as a set
+        def canon(sec: str) -> str:
+            items = sec.split(" | ")
+            return " | ".join(items[:1] + sorted(items[1:]))
+        isecs = impl.split(" ; ")
+        if len(isecs) >= 5 and len(msecs) >= 5:
+            isecs[4], msecs[4] = canon(isecs[4]), canon(msecs[4])
+            impl = " ; ".join(isecs)
     m5 = " ; ".join(msecs[:5])
     ok, exact = close_lines(impl, m5, mode, 0.0 if mode == "Q" else 1e-9)
     if not ok:
@@ -408,9 +625,25 @@ def exact_of(case: dict):
 def spec_on_impl(ctx: Ctx, run: Run, verdict: str) -> None:
     case, mode = run.case, run.case["mode"]
     size = case.get("size", 0)
+    if run.impl == "err:Netlist":
+        return                       # the netlist was rejected by its own reader (C05): no die to judge
     if run.die is None and run.impl != "err:Assert":
+        if case.get("expect") == "text":
+            return                   # a string that is neither the shorthand nor YAML text nor a file: the text layer raises
         ctx.spec_fail("operation-raised", case, {"raised": getattr(run, "raised", run.impl)}, size)
         return
+    if case.get("expect") == "text":
+        ctx.spec_fail("parse_rejects_malformed", case, {"why": case.get("why")}, size)
+        return
+    if run.die is not None and run.netlist is not None and run.die.netlist is not run.netlist:
+        ctx.spec_fail("die_sound:netlist-attribute", case, {}, size)
+        return
+    if run.die is not None:
+        b = run.die.bounding_box
+        if (b.center.x, b.center.y, b.shape.w, b.shape.h, b.region, b.fixed, b.hard) != \
+                (run.die.width / 2, run.die.height / 2, run.die.width, run.die.height, "_", False, False):
+            ctx.spec_fail("die_sound:bounding-box", case, {"box": geo.rect_dict(b)}, size)
+            return
     if case.get("expect") == "reject" and run.die is not None:
         ctx.spec_fail("parse_rejects_malformed", case, {"why": case.get("why")}, size)
         return
@@ -470,15 +703,18 @@ def spec_on_impl(ctx: Ctx, run: Run, verdict: str) -> None:
     if any(r.fixed or r.hard for r in d.specialized_regions + d.blockages):
         ctx.spec_fail("die_sound:regions-unchanged:flags", case, {}, size)
         return
-    if case.get("fixed_expect") is not None:
-        # expectation from the generated document, not from the Netlist object's flags
-        want_f = [tuple(float(Fr(v)) for v in r) for r in case["fixed_expect"]]
+    fexp = getattr(run, "fixed_expect", case.get("fixed_expect"))
+    if fexp is not None:
+        # expectation from the generated document (after the object history, if any), not from the Netlist object's flags
+        want_f = [tuple(float(Fr(v)) for v in r) for r in fexp]
         got_f = [(float(r.center.x), float(r.center.y), float(r.shape.w), float(r.shape.h)) for r in d.fixed_regions]
+        if any(h[0] == "assign" for h in case.get("history") or []):
+            want_f, got_f = sorted(want_f), sorted(got_f)      # rebuilt flat list: STOG order within a module
         if want_f != got_f or not all(r.fixed for r in d.fixed_regions):
             ctx.spec_fail("die_sound:fixed-are-the-fixed-modules", case, {"reported": got_f, "expected": want_f}, size)
             return
     else:
-        want_f = [geo.rect_dict(r) for r in run.fixed]
+        want_f = [geo.rect_dict(r) for r in (run.fixed or [])]
         if [geo.rect_dict(r) for r in d.fixed_regions] != want_f:
             ctx.spec_fail("die_sound:fixed-unchanged", case, {}, size)
             return
@@ -596,7 +832,7 @@ def make_case(rng, mode: str, max_cells: int, max_regions: int, allow_netlist=Tr
     u = rng.random()
     if u < 0.30 and (regions or fixed):
         kind = mutate(rng, regions, fixed, W, H, step, mode == "Q")
-    return build(rng, mode, fam, shape, kind, W, H, regions, fixed, hard=hard, soft=soft)
+    return build(rng, mode, fam, shape, kind, W, H, regions, fixed, hard=hard, soft=soft, step=step)
 
 
 def mutate(rng, regions, fixed, W, H, step, exact_mode=False) -> str:
@@ -622,7 +858,7 @@ def mutate(rng, regions, fixed, W, H, step, exact_mode=False) -> str:
     return how
 
 
-def build(rng, mode, fam, shape, kind, W, H, regions, fixed, pre=None, hard=(), soft=0) -> dict:
+def build(rng, mode, fam, shape, kind, W, H, regions, fixed, pre=None, hard=(), soft=0, step=Fr(1)) -> dict:
     def n(x):
         return num_text(x, rng)
 
@@ -642,22 +878,116 @@ def build(rng, mode, fam, shape, kind, W, H, regions, fixed, pre=None, hard=(), 
             doc = s
     netlist = None
     ftoks = [[n(v) for v in r[:4]] for r in fixed]
+    nkind = "none"
     if fixed or hard or soft:
-        mods = [(f"F{i}: {{fixed: true, rectangles: [[{', '.join(t)}]]}}", t) for i, t in enumerate(ftoks)]
+        def rl(tok_lists, allow_short=True):
+            if len(tok_lists) == 1 and allow_short and rng.random() < 0.3:
+                return "[" + ", ".join(tok_lists[0]) + "]"                  # `rectangles: [x, y, w, h]` (one rectangle on its own)
+            return "[" + ", ".join("[" + ", ".join(t) + "]" for t in tok_lists) + "]"
+        # fixed modules own 1..3 of the fixed rectangles each (several rectangles per module: trunk/branch or scattered)
+        groups, rest = [], list(ftoks)
+        while rest:
+            k = rng.choice([1, 1, 1, 2, 2, 3])
+            groups.append(rest[:k])
+            rest = rest[k:]
+        mods = [(f"F{i}: {{fixed: true, rectangles: {rl(g)}}}", g) for i, g in enumerate(groups)]
         # movable macros: hard but NOT fixed — they must not show up among the die's fixed regions
-        mods += [(f"H{i}: {{hard: true, rectangles: [[{', '.join(n(v) for v in r[:4])}]]}}", None) for i, r in enumerate(hard)]
-        mods += [(f"S{i}: {{area: {rng.randint(1, 9)}}}", None) for i in range(soft)]
+        mods += [(f"H{i}: {{hard: true, rectangles: {rl([[n(v) for v in r[:4]]])}}}", None) for i, r in enumerate(hard)]
+        for i in range(soft):
+            u = rng.random()
+            if u < 0.5 or W <= step * 2:
+                mods.append((f"S{i}: {{area: {rng.randint(1, 9)}}}", None))
+            elif u < 0.8:
+                # a soft module with a placed rectangle (anywhere, also over regions): not fixed, irrelevant to the die
+                cx, cy = rng.randint(1, 5) * step, rng.randint(1, 5) * step
+                mods.append((f"S{i}: {{area: {n(step * step * 4)}, rectangles: [[{n(cx)}, {n(cy)}, {n(step * 2)}, {n(step * 2)}]]}}", None))
+            else:
+                mods.append((f"S{i}: {{area: {{_: {rng.randint(1, 9)}, dsp: 2}}, center: [{n(W / 2)}, {n(H / 2)}]}}", None))
+        if rng.random() < 0.25:
+            mods.append((f"T0: {{terminal: true, center: [{n(W)}, {n(H / 2)}]}}", None))
+        if rng.random() < 0.15:
+            mods.append((f"T1: {{terminal: true, fixed: true, center: [0, {n(H / 2)}]}}", None))   # fixed, but owns no rectangle
         rng.shuffle(mods)
-        ftoks = [t for _, t in mods if t is not None]          # document order
-        netlist = "Modules: {" + ", ".join(m for m, _ in mods) + "}\nNets: []\n"
+        ftoks = [t for _, g in mods if g is not None for t in g]          # document order = order of `Netlist.rectangles`
+        names = [m.split(":")[0] for m, _ in mods]
+        nets = []
+        for _ in range(rng.randint(0, 2)):
+            if len(names) >= 2:
+                pins = rng.sample(names, rng.randint(2, min(3, len(names))))
+                nets.append("[" + ", ".join(pins + ([str(rng.randint(2, 5))] if rng.random() < 0.4 else [])) + "]")
+        body = [m for m, _ in mods]
+        nkind = "valid"
+        if rng.random() < 0.06:
+            # a netlist its own reader rejects: the die is never reached
+            how = rng.choice(["hard-overlap", "fixed+hard", "unknown-attribute", "unknown-pin"])
+            nkind = how
+            if how == "hard-overlap":
+                body.append("X0: {hard: true, rectangles: [[1, 1, 2, 2], [1.5, 1, 2, 2]]}")
+            elif how == "fixed+hard":
+                body.append("X0: {fixed: true, hard: true, rectangles: [[1, 1, 2, 2]]}")
+            elif how == "unknown-attribute":
+                body.append("X0: {area: 3, colour: 7}")
+            else:
+                nets.append("[" + names[0] + ", nobody]")
+        netlist = "Modules: {" + ", ".join(body) + "}\nNets: [" + ", ".join(nets) + "]\n"
     # the exact decimal reading of the document (fixed rectangles: those of the FIXED modules only)
     ex = exact_from_text(doc, None)
     fexp = [[str(doc_value(t)) for t in toks] for toks in ftoks]
     if ex is not None:
         ex["fixed"] = fexp
     case = {"mode": mode, "doc": doc, "netlist": netlist, "pre": pre, "family": fam, "shape": shape, "kind": kind,
-            "size": len(regions) + len(fixed), "exact": ex, "fixed_expect": fexp}
+            "size": len(regions) + len(fixed), "exact": ex, "fixed_expect": fexp, "netlist_kind": nkind}
+    if ": " in doc and rng.random() < 0.12:
+        case["as"] = "tree"                      # `Die(tree, netlist)`: read_yaml hands a list / dict back unchanged
     return case
+
+
+def history_variants(rng, case: dict) -> list[dict]:
+    """object histories on the attached netlist before the die is built (valid layouts with at least one fixed rectangle):
+    an earlier die built for the same netlist object, fixed rectangles moved in place, rectangles redefined through
+    `Netlist.assign_rectangles` (consistently, or so that two rectangles of a fixed module overlap).  The class-wide tolerance is
+    defined beforehand (the netlist does not derive one from rectangles that change afterwards)."""
+    if not case.get("netlist") or case.get("netlist_kind") != "valid" or not case.get("fixed_expect") or case["exact"] is None:
+        return []
+    try:
+        tree = read_yaml(case["netlist"])
+    except Exception:
+        return []
+    W, H = float(Fr(case["exact"]["W"])), float(Fr(case["exact"]["H"]))
+    e_d = min(W, H) * 10e-12
+    base = dict(case, pre=[e_d, math.sqrt(e_d)])
+    base.pop("as", None)
+    # doc-order index / owner of every rectangle
+    flat = []
+    for name, info in tree.get("Modules", {}).items():
+        rl = _norm_rects(dict(info)) if isinstance(info, dict) else None
+        for r in (rl or []):
+            flat.append((name, info.get("fixed") is True, r))
+    fixed_idx = [k for k, (_, fx, _) in enumerate(flat) if fx]
+    if not fixed_idx:
+        return []
+    out = []
+    k = rng.choice(fixed_idx)
+    name, _, r = flat[k]
+    w, h = float(r[2]), float(r[3])
+    dx, dy = rng.choice([(w, 0.0), (-w, 0.0), (0.0, h), (0.0, -h), (w / 2, 0.0), (0.0, -h / 2), (w, h)])
+    hist = rng.choice([[["predie"], ["move", k, dx, dy]], [["move", k, dx, dy]], [["predie"], ["move", k, dx, dy], ["predie"]]])
+    out.append(dict(base, history=hist, kind="history:move", shape="history"))
+    # redefinition through assign_rectangles
+    mine = [list(x[2][:4]) for x in flat if x[0] == name]
+    u = rng.random()
+    if u < 0.4:
+        new = [list(x) for x in mine]                                   # the same rectangles again: still valid
+        hk = "history:assign-same"
+    elif u < 0.7:
+        new = [list(mine[0]), [mine[0][0] + float(mine[0][2]) / 2, mine[0][1], mine[0][2], mine[0][3]]]   # two overlapping ones
+        hk = "history:assign-overlapping"
+    else:
+        new = [[mine[0][0], mine[0][1], float(mine[0][2]) / 2, mine[0][3]]]     # a narrower rectangle, same centre: valid
+        hk = "history:assign-narrower"
+    pre_die = [["predie"]] if rng.random() < 0.5 else []
+    out.append(dict(base, history=pre_die + [["assign", name, new]], kind=hk, shape="history"))
+    return out
 
 
 _NUM = r"[-+]?(?:\d+\.?\d*|\.\d+)(?:[eE][-+]?\d+)?"
@@ -755,10 +1085,57 @@ def corpus(mode: str) -> list[dict]:
             continue
         out.append({"mode": mode, "doc": doc, "netlist": None, "pre": None, "family": "corpus", "shape": "corpus",
                     "kind": "valid", "size": doc.count("["), "exact": exact_from_text(doc, None)})
+    # every document also as a tree (`Die(dict)`), when it has one
+    for c in list(out):
+        if ": " in c["doc"]:
+            try:
+                t = read_yaml(c["doc"])
+            except Exception:
+                continue
+            if isinstance(t, (list, dict)):
+                out.append(dict(c, **{"as": "tree"}))
+    # strings around the `<w>x<h>` shorthand: accepted by float() in unusual spellings / handed to the text layer
+    for doc in [" 5x4", "5 x 4", "1_0x2", "5.5x2 ", "+5x.5", "1e1x2.5"]:
+        out.append({"mode": mode, "doc": doc, "netlist": None, "pre": None, "family": "corpus", "shape": "corpus",
+                    "kind": "valid", "size": 0, "exact": None})
+    for doc in ["5x", "x5", "5x4x3", "5X4", "abc", "x", "5xx4"]:
+        out.append({"mode": mode, "doc": doc, "netlist": None, "pre": None, "family": "corpus", "shape": "malformed",
+                    "kind": "text", "size": 0, "exact": None, "expect": "text", "why": "neither shorthand nor YAML text nor a file"})
+    # an open text stream: read and parsed as YAML (never as the shorthand)
+    for doc, exp in [("width: 5\nheight: 4\n", None), ("width: 5\nheight: 4\nregions: [[1, 1, 2, 2, A], ['#']]\n", "reject"),
+                     ("5x4", "reject"), ("width: 10\nheight: 9\nregions: [[3, 3.5, 2, 3, \"#\"]]\n", None), ("a: [", "text")]:
+        c = {"mode": mode, "doc": doc, "netlist": None, "pre": None, "family": "corpus", "shape": "corpus" if exp is None else "malformed",
+             "kind": "valid" if exp is None else "handle:" + exp, "size": 1, "exact": None, "as": "handle"}
+        if exp is not None:
+            c["expect"], c["why"] = exp, "content of the stream"
+        out.append(c)
+    # objects that are neither a string, a tree nor a text stream
+    for kind in ["none", "number"]:
+        out.append({"mode": mode, "doc": "width: 5\nheight: 4\n", "netlist": None, "pre": None, "family": "corpus",
+                    "shape": "malformed", "kind": "other-object", "size": 0, "exact": None, "expect": "reject",
+                    "why": "stream is a " + kind, "as": kind})
+    # dies whose height / width underflows to 0.0: `ZeroDivisionError` in the unused `ratio` of `GroundRegion` until
+    # fixes/C01_ground_ratio_zero_division.diff is applied.  Active once the repair is recorded in known_findings.json (or with
+    # VERIF_C01_EXTREME=1), so that the check describes the repaired tree and exits 0 on it.
+    if mode == "F" and (os.environ.get("VERIF_C01_EXTREME") == "1" or any(str(k.get("id", "")).replace("_", "-") == "C01-ground-ratio-zero-division" for k in load_known())):   # F only: the 30-digit rational sqrt of the Q driver is 0 there
+        for doc in ["1e200x1e-200", "width: 1e200\nheight: 1e-200\n", "width: 3e180\nheight: 2.5e-170\n", "1e-200x1e200"]:
+            out.append({"mode": mode, "doc": doc, "netlist": None, "pre": None, "family": "corpus", "shape": "corpus",
+                        "kind": "valid", "size": 0, "exact": exact_from_text(doc, None)})
     nl = "Modules: {M1: {fixed: true, rectangles: [[2,7,2,2]]}, M2: {fixed: true, rectangles: [[8,5.5,2,1]]}, M3: {area: 10}}\nNets: []\n"
     d7 = "width: 10\nheight: 9\nregions: [[6, 7.5, 4, 1, \"reg1\"], [7, 1.5, 2, 3, \"reg2\"], [3, 3.5, 2, 3, \"#\"]]\n"
     out.append({"mode": mode, "doc": d7, "netlist": nl, "pre": None, "family": "corpus", "shape": "corpus", "kind": "valid",
                 "size": 5, "exact": exact_from_text(d7, nl)})
+    # the same die with a fixed module of two rectangles (an L), a movable macro over the blockage, a soft module, a net
+    nl2 = ("Modules: {H1: {hard: true, rectangles: [[3,3.5,2,3]]}, M1: {fixed: true, rectangles: [[2,7,2,2], [2,5.5,2,1]]}, "
+           "S1: {area: 4, rectangles: [[5,5,2,2]]}, M2: {fixed: true, rectangles: [8,5.5,2,1]}}\nNets: [[H1, S1, 2], [M1, M2]]\n")
+    out.append({"mode": mode, "doc": d7, "netlist": nl2, "pre": None, "family": "corpus", "shape": "corpus", "kind": "valid",
+                "size": 6, "exact": None, "fixed_expect": [["2", "7", "2", "2"], ["2", "11/2", "2", "1"], ["8", "11/2", "2", "1"]]})
+    # netlists rejected by their own reader: the die is never constructed
+    for bad in ["Modules: {M1: {fixed: true, rectangles: [[2,7,2,2], [3,7,2,2]]}}\n",
+                "Modules: {M1: {fixed: true, hard: true, rectangles: [[2,7,2,2]]}}\n",
+                "Modules: {M1: {area: 3}}\nNets: [[M1, M9]]\n"]:
+        out.append({"mode": mode, "doc": d7, "netlist": bad, "pre": None, "family": "corpus", "shape": "corpus",
+                    "kind": "netlist-rejected", "size": 3, "exact": None})
     return out
 
 
@@ -785,7 +1162,7 @@ def verdict_of(run: Run) -> str:
     case = run.case
     if case.get("expect") == "reject" or case.get("exact") is None:
         return "unclear"
-    ex = exact_of(case)
+    ex = exact_of(dict(case, exact=run.exact) if getattr(run, "exact", None) is not None else case)
     if ex is None:
         return "unclear"
     W, H = ex["W"], ex["H"]
@@ -814,36 +1191,49 @@ def process(ctx: Ctx, cases: list[dict]) -> None:
         except Unserialisable:
             continue
         runs.append(run)
-    # round 1: the model's grid for every accepted document (to translate ground rectangles into picks)
+    # round 1: the model's grid for every accepted document (to translate ground rectangles into picks) — computed by the
+    # model from the DOCUMENTS (die source + netlist document)
     idx = [i for i, r in enumerate(runs) if r.die is not None]
-    grids = ctx.model([f"{runs[i].case['mode']} grid {runs[i].head}" for i in idx])
-    reqs = []
+    grids = ctx.model([f"{runs[i].case['mode']} cgrid {runs[i].head2}" for i in idx])
+    reqs, old_reqs, old_idx = [], [], []
     if grids is not None:
         gmap = dict(zip(idx, grids))
         for i, r in enumerate(runs):
             mode = r.case["mode"]
-            if r.die is not None:
-                p = picks_from(r, gmap[i])
-                reqs.append(f"{mode} model {r.head}" if p is None else f"{mode} accept {r.head} {p}")
-            else:
-                reqs.append(f"{mode} model {r.head}")
+            p = picks_from(r, gmap[i]) if r.die is not None else None
+            reqs.append(f"{mode} construct {r.head2} " + ("-" if p is None else "P " + p))
+            # the older entry (die tree + the implementation's fixed rectangles): a quarter of the cases and the corpus
+            if r.head is not None and (i % 4 == 0 or r.case["family"] == "corpus"):
+                old_idx.append(i)
+                old_reqs.append(f"{mode} model {r.head}" if p is None else f"{mode} accept {r.head} {p}")
     replies = ctx.model(reqs) if grids is not None else None
+    old_replies = dict(zip(old_idx, ctx.model(old_reqs) or [])) if (grids is not None and old_reqs) else {}
     for i, r in enumerate(runs):
         case = r.case
         v = verdict_of(r)
         spec_on_impl(ctx, r, v)
         if replies is not None:
             compare(ctx, r, replies[i], v)
-        nontrivial = r.die is not None or case.get("expect") == "reject" or v == "invalid"
-        ctx.case(case["mode"], (case["doc"], case["netlist"], case["pre"]), nontrivial,
+            if i in old_replies:
+                compare(ctx, r, old_replies[i], v)
+                ctx.count("entry:dieModel-also")
+        nontrivial = r.die is not None or case.get("expect") in ("reject", "text") or v == "invalid" or r.impl == "err:Netlist"
+        ctx.case(case["mode"], (case["doc"], case["netlist"], case["pre"], case.get("as", "str")), nontrivial,
                  sample={"doc": case["doc"], "netlist": case["netlist"], "impl": r.impl, "oracle": v,
                          "ground": None if r.die is None else len(r.die.ground_regions)})
         ctx.count("family:" + case["family"])
         ctx.count("kind:" + str(case["kind"] if case["shape"] != "malformed" else "malformed"))
         ctx.count("oracle:" + v)
-        ctx.count("impl:" + ("accepted" if r.die is not None else "rejected"))
+        ctx.count("impl:" + ("accepted" if r.die is not None else "rejected" if r.impl != "err:Netlist" else "netlist-rejected"))
+        ctx.count("source:" + case.get("as", "str"))
+        if case.get("history"):
+            ctx.count("history:" + "+".join(h[0] for h in case["history"]))
         if case["netlist"]:
             ctx.count("with-netlist")
+            if r.die is not None and r.fixed:
+                ctx.count("with-netlist:fixed-rectangles>0")
+            if case.get("pre") is not None:
+                ctx.count("with-netlist:tolerance-defined-before")
     if replies is None:
         ctx.notes.append("model driver unavailable: correspondence not run")
 
@@ -959,6 +1349,14 @@ def light(ctx: Ctx, cases: list[dict]) -> None:
         try:   # optional observation point
             Rectangle.set_epsilon(min(d.width, d.height) * 10e-12)
             d._calculate_cell_matrix()
+            # `_cell_inside_rectangle` (a helper no caller uses): the matrix entry is "the cell lies in some region" (model: `occ`)
+            regs = d.specialized_regions + d.blockages + d.fixed_regions
+            if len(d._cells) * len(d._cells[0]) <= 36:
+                for j in range(len(d._cells)):
+                    for i in range(len(d._cells[0])):
+                        if d._cells[j][i] != any(d._cell_inside_rectangle(i, j, r) for r in regs):
+                            ctx.extra["cell_matrix_differs_from_cell_inside_rectangle"] = \
+                                ctx.extra.get("cell_matrix_differs_from_cell_inside_rectangle", 0) + 1
             want = count_all_free(d._cells)
             got = len(d._find_all_ground_rectangles())
             ctx.extra["candidate_sets_compared"] = ctx.extra.get("candidate_sets_compared", 0) + 1
@@ -980,7 +1378,9 @@ def run(ctx: Ctx) -> None:
                 "rectangles of an attached netlist, or ground; 30% are then made invalid (shift / grow / duplicate by a grid step or "
                 "by a sliver); coordinate families int, halves, eighths, powers of two (Q stream) and 0.1 / 0.01 steps, thirds, "
                 "scales 1e-3…1e6, odd decimals (F stream); plus a corpus of malformed and hand-written documents and 10% runs with a "
-                "class-wide tolerance defined beforehand.  Non-trivial = accepted by the implementation, or malformed, or clearly invalid.")
+                "class-wide tolerance defined beforehand; OBJECT HISTORIES on the attached netlist before the die is built (an earlier die for the same "
+                "netlist object, fixed rectangles moved in place, rectangles redefined through assign_rectangles — consistently or "
+                "overlapping), judged against the document that describes the netlist after the history.  Non-trivial = accepted by the implementation, or malformed, or clearly invalid.")
     rng = ctx.rng
     quick = ctx.tier == "quick"
     _TIMEOUTS.clear()
@@ -990,12 +1390,14 @@ def run(ctx: Ctx) -> None:
     for i in range(n):
         mode = "Q" if i % 2 == 0 else "F"
         c = make_case(rng, mode, max_cells if rng.random() < 0.8 else 3, max_regions)
-        if rng.random() < 0.1 and not c["netlist"]:
+        if rng.random() < 0.1:
             ex = exact_of(c)
             sc_ = float(min(ex["W"], ex["H"])) if ex else 1.0
             c["pre"] = rng.choice([[0.0], [0.0, 0.0], [sc_ * 1e-11], [sc_ * 1e-12, 0.0], [sc_ * 1e-9], [sc_ * 2.0 ** -20, sc_ * 2.0 ** -20],
                                    [sc_ * 0.25], [sc_ * 1e-11, sc_ * sc_ * 1e-9]])
         cases.append(c)
+        if c["kind"] == "valid" and rng.random() < 0.35:
+            cases += history_variants(rng, c)
     if not quick and ctx.budget <= 1.0:
         ex = exhaustive_3x3("Q") + exhaustive_3x3("F")
         ctx.extra["exhaustive_3x3_dies"] = len(ex)
